@@ -128,8 +128,8 @@ def same(a, b):
 
 
 def plan(tier, seed, build, scale):
-    n = int((6000 if tier == "quick" else 90000) * scale)
-    per = max(1, n // (8 if tier == "quick" else 32))
+    n = int((6000 if tier == "quick" else 450000) * scale)
+    per = max(1, n // (8 if tier == "quick" else 64))
     units = [{"mode": "aretry", "cases": [0, 1]}]
     a = 0
     while a < n:
